@@ -2,6 +2,7 @@ import Verif.Proofs.NumRoundLen
 import Verif.Proofs.NumHolds
 import Verif.Proofs.NumDecRound
 import Verif.Proofs.NumNumRound
+import Verif.Proofs.NumJson
 /-!
 # C08 — Number/Decimal shortening keeps the numeric value
 
@@ -109,5 +110,17 @@ theorem holds_sound (decimalMode : Bool) (s : List Char) (p : Int) (out : List C
   holds_exact_sound decimalMode s p out h hp
 
 example : holds false "+012.500e-3".toList 0 ".0125".toList = true := by decide
+
+/-- bridge to C07: the model of `minify.Number` satisfies the three hypotheses that the model of the JSON
+    minifier (`Verif.Model.Json`) makes about it, stated with the JSON side's own recognisers and value function:
+    on RFC 8259 number lexemes the result is in the minifier's number grammar and not longer (`NumGrammar`), a
+    result that starts with `.`/`-.` for a lexeme without exponent is strictly shorter (`NumDotShrinks`) — both
+    for every precision — and at precision ≤ 0 the value is unchanged (`NumValue`) -/
+theorem number_json_hypotheses (p : Int) :
+    Verif.Model.Json.NumGrammar number p ∧ Verif.Model.Json.NumDotShrinks number p ∧
+      (p ≤ 0 → Verif.Model.Json.NumValue number p) :=
+  ⟨number_numGrammar p, number_numDotShrinks p, number_numValue p⟩
+
+example : Verif.Spec.Json.isJsonNumber "-0.50e+3".toList = true := by decide
 
 end Verif.Props.C08
